@@ -366,6 +366,18 @@ def designated_clears(rng, tier):
             ops = [("req", b"/c", None), ("page", own, b"/c", None), ("page", b"default", b"/c", None), ("all", own), ("req", b"/c", None)]
             out.append(dcase(pipe.cfg(cache=False, handlers=[h, h2], report=[xb(r) for r in REPORT], **kw), d_ops(ops), "clear/no-cache",
                              [("compute", 200, 0), None, None, None, ("compute", 200, 0)]))
+    # the default branch clears the page under the URI the default redirect rewrites it to as well ("/" is stored under "/index.html")
+    hs = [pipe.H(b"/a/index.html", kind=2, body=b"i=", spref=2, cpref=0), pipe.H(b"/index.html", kind=2, body=b"r=", spref=2, cpref=0)]
+    C, H_ = ("compute", 200, 0), ("hit", 200, 0)
+    for given, stored in ((b"/a/", b"/a/index.html"), (b"/", b"/index.html")):
+        for dflt in (False, True):
+            q = rng.choice([b"", b"?x=1"])
+            ops = [pipe.req(given + q), pipe.req(given + q), pipe.clear_page(given + q, host=b"default"), pipe.req(given + q),
+                   pipe.clear_page(stored + q, host=b""), pipe.req(given + q), pipe.clear_all(b"localhost", designated=True), pipe.req(given + q)]
+            kw = {"default_host": True} if dflt else {}
+            exp = [C, H_, ("clear", True, True), C, ("clear", True, True), C, None, C] if dflt else \
+                  [C, H_, ("clear", False, False), H_, ("clear", False, False), H_, None, C]
+            out.append(dcase(base_cfg(hs, default_ext=True, **kw), ops, "clear/by-name/redirected", exp))
     # random histories of requests and designated clears
     n = 40 if tier == "quick" else 1500
     for _ in range(n):
